@@ -135,7 +135,7 @@ def plan_c04(tier, seed):
         # a partial run whose closure passes through a parameter connection two levels deep (ps -> pp -> p.a)
         add("g8c", 2, 1, 2, runto=["p"], id="C04-g8c-i2-m2-runto-p"); add("g8b", 2, 1, 1, runto=["p"], id="C04-g8b-i2-m1-runto-p")
         # ... and a parameter source that ALSO feeds a process outside the run set (more values than the buffer holds)
-        add("g8f", 2, 1, 2, runto=["p"], id="C04-g8f-i2-m2-runto-p"); add("g4", 3, 1, 2, runto=["q"], id="C04-g4-i3-m2-runto-q")
+        add("g8f", 2, 1, 2, runto=["p"], id="C04-g8f-i2-m2-runto-p"); add("g4", 3, 1, 2, runto=["q"], id="C04-g4-i3-m2-runto-q"); add("g4b", 3, 1, 2, runto=["q"], id="C04-g4b-i3-m2-runto-q-two-consumers-dropped")
         add("g8j", 2, 1, 2, runto=["gen"], id="C04-g8j-i2-m2-runto-gen"); add("g8j", 2, 1, 2, runto=["gen2"], id="C04-g8j-i2-m2-runto-gen2"); add("g8j", 2, 1, 1)
         add("g7c", 2, 1, 1); add("g7c", 2, 1, 2)   # a dead-end out-port beside the driver's feed, stream longer than the buffer
         add("g6b", 2, 1, 2, rev_src=True, id="C04-g6b-i2-m2-reverse-name-order")   # pairing follows arrival order, not name order
@@ -776,7 +776,7 @@ def plan_c09(tier, seed):
         for fk in ("exit-after", "exit-mid"):
             add(g, 1, 1, 2, "cmd", "p", "in0.txt", fk)
     # tasks that cannot be formed
-    for extra in ("emptyparam", "badpath", "badpath-nonascii-letter", "badpath-nonascii-digit", "badpath-glob", "badpath-dollar", "missingtag", "missingtag-setout", "missingparam-setout"):
+    for extra in ("emptyparam", "badpath", "badpath-exists", "badpath-nonascii-letter", "badpath-nonascii-digit", "badpath-glob", "badpath-dollar", "missingtag", "missingtag-setout", "missingparam-setout"):
         for kind in ("cmd", "func"):
             if extra.startswith("badpath-") and kind == "func" and tier == "quick":
                 continue
@@ -814,6 +814,8 @@ def crash_explore_jobs(prop, tier, oracles, snap_root=None):
     if prop == "C03":
         add("g14b", 1, 1, "func", depth2=False)   # a task that carries TWO tags (its temp-dir name hashes both)
         add("g14b", 1, 1, "func", extra="defaultout-e", depth2=False)   # ... and whose output has the DEFAULT name (which contains both tags)
+    if prop == "C03":
+        add("g11", 1, 1, "cmd", depth2=False)   # the last process has NO out-ports (its tasks have a temp dir all the same)
     add("g3", 1, 1, "cmd", extra="dirout")   # a directory as declared output: mkdir {o:out} && files inside
     # p's output declared with an absolute path (its temp path differs from its final path). Only g2: a
     # CONSUMER of an absolute path hashes that path into its temp-dir name, and recoveries run in a
